@@ -884,6 +884,13 @@ pub struct DocModel {
     pub text: String,
 }
 
+/// A carriage return that is not followed by a line feed. The properties speak of LF and CRLF
+/// line breaks only; a history that produces a lone CR is outside their quantifier.
+pub fn has_lone_cr(text: &str) -> bool {
+    let b = text.as_bytes();
+    (0..b.len()).any(|i| b[i] == b'\r' && b.get(i + 1) != Some(&b'\n'))
+}
+
 impl DocModel {
     /// Byte ranges of the lines (content only) and of their terminators.
     pub fn lines(&self) -> Vec<(usize, usize, usize)> {
